@@ -30,6 +30,10 @@ def run(tier, seed, t0):
                         ["--mode", "tlwe", "--N", N, "--k", "1,2,3", "--reps", r, "--seed", seed]))
         jobs.append(Job("optim-extract-N%d" % N, "drv_c14", "optim", "spqlios-fma",
                         ["--mode", "extract", "--N", N, "--k", "1,2,3", "--reps", 4 if thorough else 2, "--seed", seed]))
+    # several threads at once, each with its own dimensions; natively and under TSan
+    jobs.append(Job("threads-optim", "drv_c14", "optim", "spqlios-fma", ["--mode", "threads", "--reps", 3000 if thorough else 400, "--seed", seed + 10], timeout=3600))
+    jobs.append(Job("threads-scalar", "drv_c14", "scalar", "nayuki-portable", ["--mode", "threads", "--reps", 300, "--seed", seed + 11], timeout=3600))
+    jobs.append(Job("threads-tsan", "drv_c14", "tsan", "nayuki-portable", ["--mode", "threads", "--reps", 40, "--seed", seed + 12], tool="tsan", timeout=3600, meta={"leaks": False}))
     # long runs in one process: every entry point called more often than a 16-bit counter can count
     jobs.append(Job("optim-lwe-longrun", "drv_c14", "optim", "spqlios-fma", ["--mode", "lwe", "--n", "5", "--reps", 70000, "--seed", seed + 7], timeout=3600))
     jobs.append(Job("optim-tlwe-longrun", "drv_c14", "optim", "spqlios-fma", ["--mode", "tlwe", "--N", "8", "--k", "1", "--reps", 70000, "--seed", seed + 7], timeout=3600))
